@@ -928,6 +928,9 @@ class BaseModel(ModelInterface):
                 empty_df_like_ests = pd.DataFrame(
                     [], index=ix, columns=estimations.columns
                 )
+                # a (ID, TIME) pair requested several times was also estimated several times:
+                # keep one estimate per pair so that the join yields one row per requested row
+                estimations = estimations[~estimations.index.duplicated()]
                 estimations = empty_df_like_ests[[]].join(
                     estimations, on=["ID", "TIME"]
                 )
